@@ -850,4 +850,12 @@ def R6_lock_graph(ctx):
         ctx.bad("reentrant:%s" % a, "a lock of kind %s may be acquired while a guard of the same kind is live (self-deadlock if it is the same mutex)" % a, None)
 
 
-RULES = [R1_inventory, R2_cell_influence, R3_per_query, R4_conservation, R5_error_discipline, R6_lock_graph]
+def R7_flatten_conserves(ctx):
+    """one response per query *after expansion*: between two input plugins the working array is flattened (json_array_flatten_in_place)
+    and every sub-query — nested or plain — must survive that step exactly once, in order (shared with C17.R2; round 6: a
+    filter_map(as_array_mut).flatten() that dropped the plain entries of a mixed array)"""
+    from props.C17 import R2_flatten
+    R2_flatten(ctx)
+
+
+RULES = [R1_inventory, R2_cell_influence, R3_per_query, R4_conservation, R5_error_discipline, R6_lock_graph, R7_flatten_conserves]
